@@ -22,8 +22,8 @@ import (
 	"time"
 
 	"connectrpc.com/conformance/internal"
-	"connectrpc.com/conformance/internal/tracer"
 	conformancev1 "connectrpc.com/conformance/internal/gen/proto/go/connectrpc/conformance/v1"
+	"connectrpc.com/conformance/internal/tracer"
 	"connectrpc.com/conformance/internal/verifkit"
 	"google.golang.org/protobuf/proto"
 )
@@ -577,61 +577,66 @@ func TestVerifC12Wire(t *testing.T) {
 			exps = append(exps, verifkit.Pick(rng, all))
 		}
 		for i, e := range exps {
-			// test-case names are free text: percent signs, format verbs, colons
-			name := fmt.Sprintf("Wire/%s/%d", tr.name, i) + []string{"", " 100%", " %d %s %v", " a: b", " %", "%%/x", " %!s(MISSING)"}[i%7]
-			hreq, _ := http.NewRequest("POST", base+"/connectrpc.conformance.v1.ConformanceService/Unary", bytes.NewReader(body))
-			hreq.Header.Set("Content-Type", "application/proto")
-			var alsoWanted []string
-			switch i % 5 {
-			case 3:
-				// the bidi procedure (the server has a shim that presents HTTP/1.1 bidi requests as HTTP/2 to the RPC library)
-				bidi, _ := proto.Marshal(&conformancev1.BidiStreamRequest{})
-				env := append([]byte{0, 0, 0, 0, byte(len(bidi))}, bidi...)
-				hreq, _ = http.NewRequest("POST", base+"/connectrpc.conformance.v1.ConformanceService/BidiStream", bytes.NewReader(env))
-				hreq.Header.Set("Content-Type", "application/connect+proto")
-				rep.Count("wire_bidi_procedure", 1)
-			case 4:
-				// request trailers are never expected
-				hreq, _ = http.NewRequest("POST", base+"/connectrpc.conformance.v1.ConformanceService/Unary", io.NopCloser(bytes.NewReader(body)))
-				hreq.Header.Set("Content-Type", "application/proto")
-				hreq.ContentLength = -1
-				hreq.Trailer = http.Header{"X-Request-Trailer": {"sent"}}
-				alsoWanted = append(alsoWanted, "trailers")
-				rep.Count("wire_request_trailers", 1)
-			}
-			hreq.Header.Set("X-Test-Case-Name", name)
-			vfExpectHeaders(hreq.Header, e)
-			before := len(srv.stderr.Lines())
-			resp, err := client.Do(hreq)
-			rep.Eval(1)
-			rep.DistinctKey(tr.name, e)
-			if err != nil {
-				rep.Inconcl(fmt.Sprintf("%s: request failed: %v", name, err))
-				continue
-			}
-			_, _ = io.Copy(io.Discard, resp.Body)
-			resp.Body.Close()
-			time.Sleep(2 * time.Millisecond)
-			lines := srv.stderr.Lines()[before:]
-			var mine []string
-			for _, l := range lines {
-				if strings.HasPrefix(l, name+": ") {
-					mine = append(mine, l)
-				} else {
-					rep.Count("stderr_other_lines", 1)
+			for _, kind := range []string{"unary", "bidi", "trailers"} {
+				if kind == "trailers" && i%3 != 0 {
+					continue
 				}
+				// test-case names are free text: percent signs, format verbs, colons
+				name := fmt.Sprintf("Wire/%s/%d/%s", tr.name, i, kind) + []string{"", " 100%", " %d %s %v", " a: b", " %", "%%/x", " %!s(MISSING)"}[i%7]
+				hreq, _ := http.NewRequest("POST", base+"/connectrpc.conformance.v1.ConformanceService/Unary", bytes.NewReader(body))
+				hreq.Header.Set("Content-Type", "application/proto")
+				var alsoWanted []string
+				switch kind {
+				case "bidi":
+					// the bidi procedure (the server has a shim that presents HTTP/1.1 bidi requests as HTTP/2 to the RPC library)
+					bidi, _ := proto.Marshal(&conformancev1.BidiStreamRequest{})
+					env := append([]byte{0, 0, 0, 0, byte(len(bidi))}, bidi...)
+					hreq, _ = http.NewRequest("POST", base+"/connectrpc.conformance.v1.ConformanceService/BidiStream", bytes.NewReader(env))
+					hreq.Header.Set("Content-Type", "application/connect+proto")
+					rep.Count("wire_bidi_procedure", 1)
+				case "trailers":
+					// request trailers are never expected
+					hreq, _ = http.NewRequest("POST", base+"/connectrpc.conformance.v1.ConformanceService/Unary", io.NopCloser(bytes.NewReader(body)))
+					hreq.Header.Set("Content-Type", "application/proto")
+					hreq.ContentLength = -1
+					hreq.Trailer = http.Header{"X-Request-Trailer": {"sent"}}
+					alsoWanted = append(alsoWanted, "trailers")
+					rep.Count("wire_request_trailers", 1)
+				}
+				hreq.Header.Set("X-Test-Case-Name", name)
+				vfExpectHeaders(hreq.Header, e)
+				before := len(srv.stderr.Lines())
+				resp, err := client.Do(hreq)
+				rep.Eval(1)
+				rep.DistinctKey(tr.name, e, kind)
+				if err != nil {
+					rep.Inconcl(fmt.Sprintf("%s: request failed: %v", name, err))
+					continue
+				}
+				_, _ = io.Copy(io.Discard, resp.Body)
+				resp.Body.Close()
+				time.Sleep(2 * time.Millisecond)
+				lines := srv.stderr.Lines()[before:]
+				var mine []string
+				for _, l := range lines {
+					if strings.HasPrefix(l, name+": ") {
+						mine = append(mine, l)
+					} else {
+						rep.Count("stderr_other_lines", 1)
+					}
+				}
+				sort.Strings(mine)
+				if len(vfWantAspects(a, e)) == 0 {
+					rep.Count("wire_conforming", 1)
+				} else {
+					rep.Count("wire_deviating", 1)
+				}
+				if resp.ProtoMajor != tr.ver {
+					rep.Inconcl(fmt.Sprintf("%s: client spoke HTTP/%d instead of %d", name, resp.ProtoMajor, tr.ver))
+					continue
+				}
+				vfCompareAspects(rep, "wire-"+tr.name+"-"+kind, a, e, name, mine, true, nil, alsoWanted...)
 			}
-			sort.Strings(mine)
-			if len(vfWantAspects(a, e)) == 0 {
-				rep.Count("wire_conforming", 1)
-			} else {
-				rep.Count("wire_deviating", 1)
-			}
-			if resp.ProtoMajor != tr.ver {
-				rep.Inconcl(fmt.Sprintf("%s: client spoke HTTP/%d instead of %d", name, resp.ProtoMajor, tr.ver))
-				continue
-			}
-			vfCompareAspects(rep, "wire-"+tr.name, a, e, name, mine, true, nil, alsoWanted...)
 		}
 		srv.Stop()
 	}
